@@ -1,9 +1,10 @@
 """C01 - path data is interpreted exactly as the SVG path grammar prescribes."""
 import ast
 
+from .. import builders as BLD
 from .. import pathlex as PL
 from .. import rx
-from ..algebra import Alg, Uninterpreted, atom
+from ..algebra import RF, Alg, Uninterpreted, atom
 from ..model import AnalysisError, attr_chain, call_name, enclosing, parent, stmts_in
 
 EXPLANATION = (
@@ -204,32 +205,31 @@ def state_sources(ctx):
             rets = [s for s in ast.walk(f) if isinstance(s, ast.Return) and s.value is not None]
             if rets and all(isinstance(r.value, ast.Name) for r in rets):
                 zwrap.add(name)
+    zacc = tuple(sorted(zwrap))
     for bname, segcls in SEGCLASS.items():
+        if bname == "closed":
+            continue
         fn = ctx.fn("Path.%s" % bname, "R01.4")
-        ctor_calls = [c for c in ast.walk(fn) if isinstance(c, ast.Call) and call_name(c) == segcls]
-        if bname == "move":
-            ctx.need(ctor_calls, "R01.4", "Path.move: Move(...) not found")
-        ctx.need(ctor_calls, "R01.4", "Path.%s: %s(...) constructor call not found" % (bname, segcls))
-        loops = [s for s in fn.body if isinstance(s, ast.For)]
-        for c in ctor_calls:
-            a0 = c.args[0]
-            src = def_of(fn, a0, c)
-            ok = src is not None and ast.unparse(src.value) == "self.current_point"
-            in_loop = True
-            if ok and loops:
-                in_loop = enclosing(src, ast.For) is not None and enclosing(c, ast.For) is enclosing(src, ast.For)
-            ctx.ob("R01.4", "Path.%s[start of %s line-order %d]" % (bname, segcls, ctor_calls.index(c)), ok and in_loop,
-                   "start argument %s defined by %s" % (ast.unparse(a0), ast.unparse(src.value) if src is not None else None), c.lineno,
-                   "each segment starts at the current point, re-read for every repetition")
-        # z replacements come from z_point (directly or through a wrapper)
-        for s in ast.walk(fn):
-            if isinstance(s, ast.If) and isinstance(s.test, ast.Compare) and isinstance(s.test.ops[0], ast.In) and isinstance(s.test.left, ast.Name):
-                c = s.test.comparators[0]
-                if isinstance(c, (ast.Tuple, ast.List, ast.Set)) and {x.value for x in c.elts if isinstance(x, ast.Constant)} == {"z", "Z"}:
-                    asg = [a for a in s.body if isinstance(a, ast.Assign) and isinstance(a.targets[0], ast.Name) and a.targets[0].id == s.test.left.id]
-                    v = ast.unparse(asg[0].value) if asg else ""
-                    ok = v in ["self.%s" % z for z in zwrap] + ["self.%s()" % z for z in zwrap]
-                    ctx.ob("R01.4", "Path.%s[%s <- z]" % (bname, s.test.left.id), ok, v, s.lineno, "a segment-completing close resolves to the subpath start (z_point)")
+        base = BLD.summarise(ctx, "R01.4", bname, BLD.Scenario(), zaccessors=zacc)
+        ctx.need([g for g in base.segs if g.kind == segcls], "R01.4", "Path.%s: %s(...) constructor call not found" % (bname, segcls))
+        # the current point is read inside the repetition (a value read once before the loop is stale from the second group on)
+        reads = [n for n in ast.walk(fn) if attr_chain(n) == ["self", "current_point"]]
+        in_loop = base.loop is None or all(any(n is x for x in ast.walk(base.loop)) for n in reads)
+        scen = [BLD.Scenario(rel=r, z=z, last=l) for r in (False, True) for z in [None] + sorted(base.ztests) for l in (None, segcls)]
+        bad = []
+        for sc in scen:
+            sm = BLD.summarise(ctx, "R01.4", bname, sc, zaccessors=zacc)
+            for g in sm.segs:
+                if not g.args or g.args[0] != ("cur",):
+                    bad.append("%r: %r" % (sc, g))
+        ctx.ob("R01.4", "Path.%s[start of %s]" % (bname, segcls), not bad and in_loop and bool(reads), "; ".join(bad)[:200] or "starts at self.current_point in %d scenarios" % len(scen), fn.lineno,
+               "each segment starts at the current point, re-read for every repetition")
+        # z replacements come from z_point (directly or through a wrapper): with z in slot k the slot (and the ones after it) is the subpath start
+        for z in sorted(base.ztests):
+            sm = BLD.summarise(ctx, "R01.4", bname, BLD.Scenario(z=z), zaccessors=zacc)
+            vals = [a for g in sm.segs for a in g.args[1:] if isinstance(a, tuple) and a and a[0] in ("op", "zpoint", "opaque")]
+            ok = bool(sm.segs) and any(a[0] == "zpoint" for a in vals) and not any(a == ("op", z) for a in vals) and not any(a[0] == "opaque" for a in vals)
+            ctx.ob("R01.4", "Path.%s[operand %d <- z]" % (bname, z), ok, repr(sm.segs)[:160], fn.lineno, "a segment-completing close resolves to the subpath start (z_point)")
     closed = ctx.fn("Path.closed", "R01.4")
     cc = [c for c in ast.walk(closed) if call_name(c) == "Close"]
     if cc:
@@ -237,35 +237,23 @@ def state_sources(ctx):
         ctx.ob("R01.4", "Path.closed[target]", e is not None and ast.unparse(e.value) == "self.z_point", ast.unparse(e.value) if e is not None else "", closed.lineno,
                "a close returns to the start of its own subpath")
     # H / V end point formulas
-    for bname, own, other in (("horizontal", "x", "y"), ("vertical", "y", "x")):
+    cx, cy, V = atom("cur_x"), atom("cur_y"), atom("op0")
+    for bname, own in (("horizontal", "x"), ("vertical", "y")):
         fn = ctx.fn("Path.%s" % bname, "R01.4")
-        var = fn.args.vararg.arg
-        calls = [c for c in ast.walk(fn) if call_name(c) == "Line"]
-        ctx.need(len(calls) == 2, "R01.4", "Path.%s: two Line(...) calls expected (relative/absolute)" % bname)
-        for c in calls:
-            br = enclosing(c, ast.If)
-            ctx.need(br is not None and ast.unparse(br.test) == "relative", "R01.4", "Path.%s: relative/absolute split not found" % bname)
-            is_rel = any(c is n for s in br.body for n in ast.walk(s))
-            end = c.args[1]
-            ctx.need(call_name(end) == "Point" and len(end.args) == 2, "R01.4", "Path.%s: end is not Point(x, y)" % bname)
-            sp = ast.unparse(c.args[0])
-            amap = {"%s[index]" % var: "V"}
-            try:
-                a = Alg(call_hook=lambda alg, node: None)
-                ex = _ev_idx(end.args[0], var)
-                ey = _ev_idx(end.args[1], var)
-            except Uninterpreted as e:
-                raise AnalysisError("R01.4", "Path.%s: %s" % (bname, e))
-            px, py = atom("%s.x" % sp), atom("%s.y" % sp)
-            V = atom("V")
+        for is_rel in (False, True):
+            sm = BLD.summarise(ctx, "R01.4", bname, BLD.Scenario(rel=is_rel), zaccessors=zacc)
+            ctx.need(len(sm.segs) == 1 and sm.segs[0].kind == "Line" and len(sm.segs[0].args) >= 2, "R01.4", "Path.%s: one Line(...) per operand expected, found %s" % (bname, sm.segs))
+            end = sm.segs[0].args[1]
             if own == "x":
-                want = (px + V if is_rel else V, py)
+                want = [cx + V if is_rel else V, cy]
             else:
-                want = (px, py + V if is_rel else V)
-            ctx.ob("R01.4", "Path.%s[%s end]" % (bname, "relative" if is_rel else "absolute"), ex == want[0] and ey == want[1],
-                   "Point(%s, %s)" % (ex, ey), c.lineno, "H/V change one coordinate and keep the other coordinate of the current point")
-            kw = {k.arg: ast.unparse(k.value) for k in c.keywords}
-            ctx.ob("R01.4", "Path.%s[%s flag]" % (bname, "relative" if is_rel else "absolute"), kw.get("relative") in ("relative", str(is_rel)), str(kw), c.lineno, "")
+                want = [cx, cy + V if is_rel else V]
+            ok = isinstance(end, list) and len(end) == 2 and end[0] == want[0] and end[1] == want[1]
+            ctx.ob("R01.4", "Path.%s[%s end]" % (bname, "relative" if is_rel else "absolute"), ok,
+                   "Point(%s)" % (", ".join(str(e) for e in end) if isinstance(end, list) else end,), fn.lineno, "H/V change one coordinate and keep the other coordinate of the current point")
+            kw = sm.segs[0].kw.get("relative")
+            okf = isinstance(kw, RF) and (kw == atom("relative") or (kw.is_const() and bool(kw.constval()) == is_rel))
+            ctx.ob("R01.4", "Path.%s[%s flag]" % (bname, "relative" if is_rel else "absolute"), okf, str(kw), fn.lineno, "")
 
 
 def _ev_idx(node, var):
@@ -333,21 +321,30 @@ def reflections(ctx, fn, cls_name, depth=0):
 
 
 def smooth_degree(ctx):
+    kinds = [None, "Move", "Line", "Close", "Arc", "QuadraticBezier", "CubicBezier"]
     for bname, segcls, fld in (("smooth_quad", "QuadraticBezier", "control"), ("smooth_cubic", "CubicBezier", "control2")):
         fn = ctx.fn("Path.%s" % bname, "R01.5")
-        refl = reflections(ctx, fn, "Path")
-        ctx.need(refl, "R01.5", "Path.%s: no reflection of a previous control point found" % bname)
         bad = []
-        for guards, f, line in refl:
-            if not guards:
-                bad.append("unguarded reflection line %d" % line)
-            for g in guards:
-                if g != segcls:
-                    bad.append("reflects after a %s (line %d)" % (g, line))
-            if segcls in guards and f != fld:
-                bad.append("reflects field %s, expected %s (line %d)" % (f, fld, line))
-        has_own = any(segcls in g for g, _, _ in refl)
-        ctx.ob("R01.5", "Path.%s" % bname, not bad and has_own, "; ".join(bad) or "reflection only after %s" % segcls, fn.lineno,
+        own = False
+        for last in kinds:
+            sm = BLD.summarise(ctx, "R01.5", bname, BLD.Scenario(last=last))
+            segs = [g for g in sm.segs if g.kind == segcls]
+            ctx.need(segs and all(len(g.args) >= 2 for g in segs), "R01.5", "Path.%s: no %s appended after %s" % (bname, segcls, last))
+            for g in segs:
+                c1 = g.args[1]
+                if last == segcls:
+                    if c1 == ("reflect", fld):
+                        own = True
+                    elif isinstance(c1, tuple) and c1 and c1[0] == "reflect":
+                        bad.append("reflects field %s, expected %s (line %d)" % (c1[1], fld, g.node.lineno))
+                    else:
+                        bad.append("no reflection after a %s: control is %s (line %d)" % (last, c1, g.node.lineno))
+                else:
+                    if isinstance(c1, tuple) and c1 and c1[0] == "reflect":
+                        bad.append("reflects after a %s (line %d)" % (last, g.node.lineno))
+                    elif c1 != ("cur",):
+                        bad.append("after %s the control point is %s, not the current point (line %d)" % (last, c1, g.node.lineno))
+        ctx.ob("R01.5", "Path.%s" % bname, not bad and own, "; ".join(sorted(set(bad))) or "reflection only after %s" % segcls, fn.lineno,
                "a smooth command reflects the previous control point only when the previous command is a curve of its own degree; "
                "otherwise the control point coincides with the current point")
 
@@ -370,7 +367,7 @@ def connectivity(ctx):
     ctx.ob("R01.6", "Path._validate_close", ok, "", vcl.lineno, "a close is linked to the nearest preceding move")
     for bname in SEGCLASS:
         fn = ctx.fn("Path.%s" % bname, "R01.6")
-        ok = any(isinstance(c, ast.Call) and ast.unparse(c.func) == "self.append" for c in ast.walk(fn))
+        ok = any(isinstance(c, ast.Call) and attr_chain(c.func) == ["self", "append"] for c in ast.walk(fn))
         ctx.ob("R01.6", "Path.%s[appends]" % bname, ok, "", fn.lineno, "every builder stores its segment through append (which validates connections)")
 
 
